@@ -57,7 +57,12 @@ def job_shapes(module, family, shard, nshards, quick):
     mod = importlib.import_module(module)
     acc = Acc()
     last = None
-    for i, model in enumerate(mod.shapes(family, quick)):
+    if family == 'pairs':
+        from . import gen as G
+        models = (f for _, f in G.pair_documents())
+    else:
+        models = mod.shapes(family, quick)
+    for i, model in enumerate(models):
         if i % nshards != shard:
             continue
         last = check_both_routes(mod, model, acc)
@@ -91,7 +96,7 @@ def job_structure(module, budget, shard, nshards):
 def run_shapes(ctx, module, families, structure_n=(5, 6)):
     ns = 16
     mod = importlib.import_module(module)
-    for fam in families:
+    for fam in list(families) + ['pairs']:
         ctx.level('shapes:' + fam, [job_shapes.job(module, fam, s, ns, ctx.quick) for s in range(ns)])
     n = ctx.pick(*structure_n)
     ctx.level('structure N<=%d via parser' % n, [job_structure.job(module, n, s, ns) for s in range(ns)])
